@@ -86,6 +86,10 @@ type Case struct {
 // Worker holds per-process state and accumulates results.
 type Worker struct {
 	Cache map[string]interface{}
+	// KnownKeys holds the shape keys of recorded findings for the property being run.
+	KnownKeys map[string]bool
+	// Unknown counts violations that are not recorded findings.
+	Unknown int
 
 	res WorkerResult
 	seenNT map[uint64]struct{}
@@ -248,13 +252,23 @@ func (c *Case) Finish() {
 	if len(c.violations) > 0 {
 		d := c.description()
 		for i := range c.violations {
-			if len(w.res.Violations) < 40 {
-				v := c.violations[i]
-				if i == 0 {
-					v.Desc = d
+			v := c.violations[i]
+			if w.KnownKeys[v.Key] {
+				// recorded findings do not use up the violation budget of the worker
+				w.res.Counters["known:"+v.Key]++
+				if w.res.Counters["known:"+v.Key] > 2 {
+					continue
 				}
-				w.res.Violations = append(w.res.Violations, v)
+			} else {
+				w.Unknown++
+				if w.Unknown > 40 {
+					continue
+				}
 			}
+			if i == 0 {
+				v.Desc = d
+			}
+			w.res.Violations = append(w.res.Violations, v)
 		}
 		w.res.Counters["violating_cases"]++
 	} else if len(w.res.Samples) < 3 && c.Rng.Intn(4) == 0 || (len(w.res.Samples) == 0) {
